@@ -1,0 +1,36 @@
+//go:build verif
+
+// Contracts for contract-based deductive verification (see /verif/DESIGN.md).
+// Comment-only file: it contributes no code to any build.
+
+package transport
+
+// ---------------------------------------------------------------- C17
+
+//@ define validEnc(p): p.Encoding == "" || p.Encoding == EncodingNameJSON || p.Encoding == EncodingNameProtobuf
+//@ define validComp(p): p.Compress == "" || p.Compress == compress.TypePerMessage || p.Compress == compress.TypeContextTakeOver
+//@ define validLevel(p): p.CompressLevel == nil || (0 <= *p.CompressLevel && *p.CompressLevel <= 9)
+//@ define validWindow(p): p.CompressWindowBits == nil || (0 <= *p.CompressWindowBits && *p.CompressWindowBits <= 32)
+
+//@ func (*NegotiationParams).Validate
+//@   props C17
+//@   nopanic
+//@   modifies p.CompressLevel
+//@   ensures (result == nil) == old(validEnc(p) && validComp(p) && validLevel(p) && validWindow(p))
+//@   ensures imp(old(p.CompressLevel) != nil, p.CompressLevel == old(p.CompressLevel))
+//@   ensures imp(result == nil && p.Compress != "", p.CompressLevel != nil)
+//@   ensures imp(result == nil && p.Compress != "" && old(p.CompressLevel) == nil, *p.CompressLevel == DefaultCompressionLevel)
+//@   ensures imp(p.Compress == "", p.CompressLevel == old(p.CompressLevel))
+//@   ensures imp(result == nil, validLevel(p) && validWindow(p))
+
+//@ func (*NegotiationParams).CompressConfig
+//@   props C17
+//@   nopanic
+//@   modifies nothing
+//@   ensures result.Enable == (p.CompressLevel != nil && *p.CompressLevel != 0)
+//@   ensures imp(result.Enable, result.Level == *p.CompressLevel)
+//@   ensures imp(result.Enable && p.CompressWindowBits != nil, result.WindowBits == *p.CompressWindowBits)
+//@   ensures imp(result.Enable && p.CompressWindowBits == nil, result.WindowBits == base.WindowBits)
+//@   ensures imp(result.Enable && p.Compress == compress.TypePerMessage, result.DisableContextTakeover)
+//@   ensures imp(result.Enable && p.Compress == compress.TypeContextTakeOver, !result.DisableContextTakeover)
+//@   ensures imp(!result.Enable, result.Level == base.Level && result.WindowBits == base.WindowBits && result.DisableContextTakeover == base.DisableContextTakeover)
